@@ -49,6 +49,8 @@ type rulesReq struct {
 	Cfg      []int  `json:"cfg"`
 	Seed     uint64 `json:"seed"`
 	N        int    `json:"n"`
+	// VolumeScale multiplies every volume (0 = 1): fractional quantities (volumes below one unit) are legitimate data
+	VolumeScale float64 `json:"volume_scale,omitempty"`
 }
 
 type rulesRow struct {
@@ -441,7 +443,7 @@ func rulesTraceOne(req rulesReq) any {
 		return rulesErr{req.Strategy, "catalogue entry holds no strategy value"}
 	}
 
-	d := DataSpec{Seed: req.Seed}
+	d := DataSpec{Seed: req.Seed, VolumeScale: req.VolumeScale}
 	snaps := make([]*asset.Snapshot, req.N)
 	for i := range snaps {
 		snaps[i] = d.Snapshot(i)
